@@ -300,8 +300,11 @@ def strategy(tier):
         st.builds(lambda i, p: {"k": "hello_client", "id": p + i}, _ident, st.sampled_from(["IOS", "AND"])),
         st.just({"k": "hello_bcast"}),
     )
-    framing = st.builds(lambda src, dst, c: {"k": "frame", "src": "IOS" + src, "dst": "SPA" + dst, "content": c},
-                        _ident, _ident, _payload(600))
+    # "more": further frames, from other identifier pairs, offered to the SAME long-lived listener afterwards (a spa-side listener
+    # serves several clients; a client may come back under a new identifier)
+    more = st.lists(st.tuples(_ident.map(lambda s_: "AND" + s_), _ident.map(lambda s_: "SPA" + s_), _payload(60)).map(list), max_size=3)
+    framing = st.builds(lambda src, dst, c, m: dict({"k": "frame", "src": "IOS" + src, "dst": "SPA" + dst, "content": c}, **({"more": m} if m else {})),
+                        _ident, _ident, _payload(600), more)
     seqs = st.sampled_from(sorted(SEQ_FAMILIES)).flatmap(
         lambda fam: st.lists(
             st.sampled_from(SEQ_FAMILIES[fam]).flatmap(lambda k: st.tuples(st.just(k), _fields(k)).map(list)),
@@ -556,8 +559,21 @@ def _frame(res, case):
     if ph.packet_content != content or ph.parms != ("9.9.9.9", 10022, src, dst):
         res.fail(f"C04|unframe|{'taggy' if _has_special(content) else 'plain'}",
                  f"framed {wire!r} un-frames to content={ph.packet_content!r} parms={ph.parms!r}")
-    res.nontrivial = _has_special(content)
+    for n, (src2, dst2, c2) in enumerate(case.get("more", [])):
+        s2, d2, content2 = src2.encode("latin-1"), dst2.encode("latin-1"), bytes.fromhex(c2)
+        wire2 = R.frame(s2, d2, content2)
+        if not ph.can_handle(wire2, ("9.9.9.8", 10022)):
+            res.fail("C04|unframe|listener-refuses-other-pair", f"a listener that has un-framed a packet of pair ({src!r},{dst!r}) refuses the well-formed packet "
+                     f"{wire2[:80]!r} of pair ({s2!r},{d2!r})")
+            break
+        ph.handle(wire2, ("9.9.9.8", 10022))
+        if ph.packet_content != content2 or ph.parms != ("9.9.9.8", 10022, s2, d2):
+            res.fail("C04|unframe|sequence", f"frame #{n + 2} on one listener un-frames to content={ph.packet_content!r} parms={ph.parms!r}")
+            break
+    res.nontrivial = _has_special(content) or bool(case.get("more"))
     res.label("frame")
+    if case.get("more"):
+        res.label("frame-sequence-on-one-listener")
 
 
 def _files(res, case):
